@@ -118,6 +118,9 @@ func runJob(run *ev.Run, j job) {
 	r := run.Rand(j.id)
 	g := gen.New(r)
 	x, err := mon.NewRIBMonVia(g.S, j.noFwd, j.via)
+	if err == nil && len(j.id)%3 == 0 {
+		x.WithIdleHooks()
+	}
 	if err != nil {
 		run.Fatal(err.Error())
 		return
